@@ -221,8 +221,14 @@ func TestC19Structural(t *testing.T) {
 // behaviour: the response-header timeout produces a 504 in time
 
 func TestC19ResponseHeaderTimeout(t *testing.T) {
-	var delay int64
+	var delay, earlyHints int64
 	up := httptest.NewServer(http.HandlerFunc(func(w http.ResponseWriter, r *http.Request) {
+		if atomic.LoadInt64(&earlyHints) != 0 {
+			// an informational response is not the response header the timeout waits for
+			w.Header().Set("Link", "</style.css>; rel=preload")
+			w.WriteHeader(http.StatusEarlyHints)
+			w.Header().Del("Link")
+		}
 		if d := time.Duration(atomic.LoadInt64(&delay)); d > 0 {
 			select {
 			case <-time.After(d):
@@ -254,6 +260,13 @@ func TestC19ResponseHeaderTimeout(t *testing.T) {
 		// other proxy features on the response path (compression) must not swallow the 504
 		acceptEncoding := rapid.SampledFrom([]string{"", "gzip", "gzip, deflate"}).Draw(t, "accept-encoding")
 		upgrade := rapid.SampledFrom([]string{"", "", "h2c", "TLS/1.0", "web"}).Draw(t, "upgrade-offer")
+		early := rapid.IntRange(0, 3).Draw(t, "upstream-sends-103-first") == 0
+		if early {
+			atomic.StoreInt64(&earlyHints, 1)
+			hx.Class("upstream-sends-103-then-the-rest")
+		} else {
+			atomic.StoreInt64(&earlyHints, 0)
+		}
 		var pcfg config.Proxy
 		if rapid.Bool().Draw(t, "gzip-configured") {
 			pcfg.GZIPContentTypes = regexp.MustCompile(`^(text/.*|application/json)(;.*)?$`)
@@ -291,7 +304,7 @@ func TestC19ResponseHeaderTimeout(t *testing.T) {
 				Lookup:            func(*http.Request) *route.Target { return tg },
 			}
 			atomic.StoreInt64(&delay, int64(D))
-			rec := httptest.NewRecorder()
+			rec := &finalRecorder{ResponseRecorder: httptest.NewRecorder()}
 			req := newReq()
 			start := time.Now()
 			p.ServeHTTP(rec, req)
@@ -324,7 +337,7 @@ func TestC19ResponseHeaderTimeout(t *testing.T) {
 			res := make(chan r, K)
 			for i := 0; i < K; i++ {
 				go func() {
-					rec := httptest.NewRecorder()
+					rec := &finalRecorder{ResponseRecorder: httptest.NewRecorder()}
 					req := newReq()
 					t0 := time.Now()
 					p.ServeHTTP(rec, req)
@@ -342,7 +355,7 @@ func TestC19ResponseHeaderTimeout(t *testing.T) {
 		}
 		code, body, took := run(T)
 		hx.Eval()
-		ctx := fmt.Sprintf("responseheadertimeout=%v upstream delay=%v transport=%s request=%s Accept=%q Accept-Encoding=%q Upgrade=%q gzip-configured=%v (%s)", T, D, kind, method, accept, acceptEncoding, upgrade, pcfg.GZIPContentTypes != nil, describe(cfg))
+		ctx := fmt.Sprintf("responseheadertimeout=%v upstream delay=%v transport=%s request=%s Accept=%q Accept-Encoding=%q Upgrade=%q 103-first=%v gzip-configured=%v (%s)", T, D, kind, method, accept, acceptEncoding, upgrade, early, pcfg.GZIPContentTypes != nil, describe(cfg))
 		if slow {
 			if code != 504 {
 				t.Fatalf("upstream answers after %v but the client got %d after %v, want 504\n%s", D, code, took, ctx)
@@ -370,6 +383,18 @@ func TestC19ResponseHeaderTimeout(t *testing.T) {
 		}
 		hx.NonTrivial(ctx)
 	})
+}
+
+// finalRecorder records the final status: informational responses pass by, as they do on a connection.
+type finalRecorder struct {
+	*httptest.ResponseRecorder
+}
+
+func (r *finalRecorder) WriteHeader(code int) {
+	if code >= 100 && code < 200 && code != http.StatusSwitchingProtocols {
+		return
+	}
+	r.ResponseRecorder.WriteHeader(code)
 }
 
 // dial timeout: a connect to a listener whose accept queue is full stalls and
